@@ -332,8 +332,8 @@ pub fn base_cfg(exact: bool, t: Tier) -> GenCfg {
     cfg
 }
 
-pub fn run(ctx: &Ctx) -> i32 {
-    let mut st = ctx.run_replays(&dispatch);
+pub fn campaigns(ctx: &Ctx) -> Stats {
+    let mut st = Stats::default();
     let t = ctx.tier;
     let (len, total) = t.pick((10usize, 20000u64), (30, 400000));
     for (name, exact) in [("exact-programs", true), ("mixed-programs", false)] {
@@ -341,6 +341,12 @@ pub fn run(ctx: &Ctx) -> i32 {
         let strat = move || (recipe_strategy(len), any::<[u8; 8]>(), any::<u64>()).prop_map(|(prog, p, vseed)| R17 { prog, p, vseed }).boxed();
         st.merge(ctx.run_prop(name, total / 2, strat, move |r| build(&cfg, r)));
     }
+    st
+}
+
+pub fn run(ctx: &Ctx) -> i32 {
+    let mut st = ctx.run_replays(&dispatch);
+    st.merge(campaigns(ctx));
     if ctx.tier == Tier::Thorough {
         st.merge(ctx.run_fuzz(10000, ctx.threads, &dispatch));
     }
